@@ -494,14 +494,26 @@ func H_C04_history() {
 func H_C04_restart() {
 	st := vNewUP4Stack(16)
 	e := st.e
-	// a previous incarnation: one or two sessions, then the agent dies
-	p, f, q := vSessionRules(0)
-	e.vSend(vEstablishment(2, 0xc0, "cp.test", p, f, q))
-	if vBool("two_sessions") {
-		p, f, q = vSessionRules(1)
+	// a previous incarnation: no, one or two sessions - the first one possibly idle
+	// (its downlink FAR buffers and names no tunnel, so no tunnel peer is left) -
+	// then the agent dies. Some tables are populated, others empty.
+	nsess := vChoose("sessions_left_behind", 3)
+	if nsess >= 1 {
+		p, f, q := vSessionRules(0)
+		e.vSend(vEstablishment(2, 0xc0, "cp.test", p, f, q))
+		if vBool("first_session_idle") {
+			r, ok := e.vLastReply().(*message.SessionEstablishmentResponse)
+			vAssume(ok && vCauseOf(r.Cause) == ie.CauseRequestAccepted)
+			fs, _ := r.UPFSEID.FSEID()
+			u := f[1]
+			u.action, u.noOHC = ActionBuffer|ActionNotify, true
+			e.vSend(message.NewSessionModificationRequest(0, 0, fs.SEID, 4, 0, u.update()))
+		}
+	}
+	if nsess >= 2 {
+		p, f, q := vSessionRules(1)
 		e.vSend(vEstablishment(3, 0xc1, "cp.test", p, f, q))
 	}
-	vAssume(st.env.srv.totalEntries() > 2)
 	// new incarnation against the same, still populated switch
 	st2 := vNewUP4(16, st.cfg.slice, st.cfg.defaultTC, st.cfg.qfiToTC)
 	st2.up4.p4client.client = st.env.srv // same target
